@@ -573,6 +573,17 @@ def check_pairing(ctx, rule):
         # collection feeding headers_dict
         v = st.value
         src = None
+        from .c04 import _dict_helper, _zip_dict
+        h = _dict_helper(ctx.G, init, v)
+        if h is not None:
+            # the dictionary is built by a helper: its keys are those of the local the helper returns
+            g, local = h
+            ds = [a for a in ast.walk(g.node) if isinstance(a, ast.Assign) and len(a.targets) == 1 and U(a.targets[0]) == local]
+            if len(ds) == 1:
+                v = ds[0].value
+        if _zip_dict(v) is not None:
+            src = '[%s]' % ', '.join(U(k) for k in _zip_dict(v)[0])
+            lit_keys = src
         if isinstance(v, ast.Call) and 'fromkeys' in U(v.func) and v.args:
             src = U(v.args[0])
         elif isinstance(v, ast.Name):
@@ -615,9 +626,10 @@ def check_pairing(ctx, rule):
                 aliases[norm(U(a.targets[0]))] = norm(U(a.value))
         s0 = norm(src or '')
         cands = {s0, aliases.get(s0, s0)} | {k for k, v in aliases.items() if v == s0}
-        if isinstance(v, ast.Dict):
-            lits = {norm('[%s]' % ', '.join(U(k) for k in v.keys))}
-            ok = bool(fset & lits) or any(norm(x) == norm('[%s]' % ', '.join(U(k) for k in v.keys)) for x in feeders)
+        if isinstance(v, ast.Dict) or _zip_dict(v) is not None:
+            kk = v.keys if isinstance(v, ast.Dict) else _zip_dict(v)[0]
+            lits = {norm('[%s]' % ', '.join(U(k) for k in kk))}
+            ok = bool(fset & lits) or any(norm(x) == norm('[%s]' % ', '.join(U(k) for k in kk)) for x in feeders)
         else:
             ok = bool(fset & cands)
         label = 'headers_dict <- %s' % (src,)
